@@ -28,6 +28,10 @@ class Unsupported(Exception):
   pass
 
 
+class NonFiniteConstant(Exception):
+  """A non-finite float constant reached an arithmetic operation with symbolic data."""
+
+
 def is_sym(x):
   return isinstance(x, (PolyArr, TermArr))
 
@@ -125,6 +129,9 @@ class Interp:
     if not any(is_sym(x) for x in ins):
       return self.concrete(prim, params, ins)
     self.sym_prims[name] += 1
+    for x in ins:
+      if isinstance(x, np.ndarray) and x.dtype.kind == 'f' and x.size and not np.all(np.isfinite(x)):
+        raise NonFiniteConstant(f'non-finite constant operand of {name} (shape {x.shape})')
     return self.symbolic(prim, params, ins, eqn)
 
   def concrete(self, prim, params, ins):
@@ -153,6 +160,8 @@ class Interp:
     if name == 'mul':
       return self._bin(ins, 'mul')
     if name == 'div':
+      if not is_sym(ins[1]) and np.any(np.asarray(ins[1]) == 0):
+        raise NonFiniteConstant('division of symbolic data by a constant containing 0')
       return self._bin(ins, 'div')
     if name == 'neg':
       return ins[0].neg()
